@@ -235,7 +235,7 @@ inline void build_img(const SImg &d, BuiltImg &b, bool is_dest) {
       b.amap = make_image(d.amap);
       if (b.amap->im) pixman_image_set_alpha_map(b.im, b.amap->im, (int16_t)d.ax, (int16_t)d.ay);
     }
-    if (d.accessors) {
+    if (d.accessors && bpp(d.bits.code()) <= 32) {  // pixman_image_set_accessors documents: accessors only work for <= 32 bpp
       AccLog &l = acclog();
       if (l.n < 31) {
         l.lo[l.n] = b.bits->buf.p;
@@ -359,7 +359,10 @@ inline std::vector<int64_t> gen_transform(int kind, int sw, int sh) {
     m[5] = R(-6, 6) * 65536 + frac();
     break;
   case 2: {
-    auto sc = [] { return coin(50) ? pick<int64_t>({32768, 131072, 65536, 98304, 43691, 21845, 196608, -65536}) : R(4096, 4 * 65536); };
+    auto sc = [] {
+      int64_t v = coin(50) ? pick<int64_t>({32768, 131072, 65536, 98304, 43691, 21845, 196608, 65536}) : R(4096, 4 * 65536);
+      return coin(15) ? -v : v;  // mirrored (and mirrored + scaled) sources
+    };
     m[0] = sc();
     m[4] = coin(50) ? m[0] : sc();
     m[2] = R(-4, 4) * 65536 + frac();
@@ -414,6 +417,7 @@ inline std::vector<int64_t> gen_transform(int kind, int sw, int sh) {
 inline Boxes gen_clip(int w, int h, int maxn) {
   int n = (int)R(1, maxn);
   Boxes b;
+  if (coin(5)) return b;  // a clip region that is set but empty: nothing may be drawn (seeded C03d)
   for (int i = 0; i < n; i++) {
     int64_t x1 = R(-3, w), y1 = R(-3, h);
     b.push_back({x1, y1, x1 + R(1, w + 3), y1 + R(1, h + 3)});
@@ -533,7 +537,7 @@ inline Scene gen_scene(const GenOpts &o) {
   d.bits = gen_bits(gen_dst_format(o.any_format), 1, 1);
   d.bits.w = std::max(1, sc.w + (int)R(-2, 6));
   d.bits.h = std::max(1, sc.h + (int)R(-1, 3));
-  d.bits.fill = pickw({4, 4, 2, 3, 1, 1, 1});
+  d.bits.fill = pickw({4, 4, 2, 3, 1, 1, 1, 1});
   sc.dx = (int)R(-2, 4);
   sc.dy = (int)R(-1, 2);
   if (o.clips && coin(20)) {
@@ -575,22 +579,36 @@ inline Scene gen_plain_scene(int maxw, int maxh) {
     // the first four entries carry half of the mass
     return fmt_index(coin(50) ? a[R(0, 3)] : a[R(0, n - 1)]);
   };
-  sc.op = coin(60) ? pick<int>({PIXMAN_OP_SRC, PIXMAN_OP_OVER, PIXMAN_OP_OVER, PIXMAN_OP_ADD}) : pick<int>({PIXMAN_OP_IN, PIXMAN_OP_IN_REVERSE, PIXMAN_OP_OUT_REVERSE, PIXMAN_OP_OVER_REVERSE, PIXMAN_OP_OUT, PIXMAN_OP_ATOP, PIXMAN_OP_XOR, PIXMAN_OP_CLEAR, PIXMAN_OP_SATURATE, PIXMAN_OP_MULTIPLY, PIXMAN_OP_SCREEN});
+  // one request in six is shaped like the scaled nearest/bilinear fast-path families of the C, MMX and SSE2/SSSE3
+  // implementations: SRC/OVER/ADD, 8888/565 source and destination, positive scale, no mask / an untransformed a8 mask with
+  // runs of 0x00 and 0xff (the vector loops skip groups of fully transparent mask pixels) / a solid mask
+  bool scaled_family = coin(17);
+  sc.op = scaled_family ? pick<int>({PIXMAN_OP_SRC, PIXMAN_OP_OVER, PIXMAN_OP_OVER, PIXMAN_OP_ADD}) : coin(60) ? pick<int>({PIXMAN_OP_SRC, PIXMAN_OP_OVER, PIXMAN_OP_OVER, PIXMAN_OP_ADD}) : pick<int>({PIXMAN_OP_IN, PIXMAN_OP_IN_REVERSE, PIXMAN_OP_OUT_REVERSE, PIXMAN_OP_OVER_REVERSE, PIXMAN_OP_OUT, PIXMAN_OP_ATOP, PIXMAN_OP_XOR, PIXMAN_OP_CLEAR, PIXMAN_OP_SATURATE, PIXMAN_OP_MULTIPLY, PIXMAN_OP_SCREEN});
   sc.w = coin(45) ? WIDTHS[R(0, 14)] : (int)R(1, maxw);
   sc.h = (int)R(1, maxh);
   SImg &d = sc.dst;
-  d.bits = gen_bits(wpick(DF, 13), 1, 1);
+  d.bits = gen_bits(scaled_family && coin(85) ? fmt_index(pick<pixman_format_code_t>({PIXMAN_a8r8g8b8, PIXMAN_x8r8g8b8, PIXMAN_r5g6b5, PIXMAN_a8b8g8r8})) : wpick(DF, 13), 1, 1);
   sc.dx = (int)R(0, 5);
   sc.dy = (int)R(0, 2);
   d.bits.w = sc.dx + sc.w + (int)R(0, 3);
   d.bits.h = sc.dy + sc.h + (int)R(0, 1);
-  d.bits.fill = pickw({4, 4, 2, 3, 1, 1, 1});
+  d.bits.fill = pickw({4, 4, 2, 3, 1, 1, 1, 1});
   if (coin(12)) {
     d.has_clip = 1;
     d.clip = gen_clip(d.bits.w, d.bits.h, 3);
   }
+  bool pinned = false;
   auto gsrc = [&](SImg &s, bool is_mask) {
-    if (coin(is_mask ? 30 : 25)) {
+    pinned = false;
+    if (scaled_family && is_mask && coin(60)) {
+      s.kind = 0;
+      s.bits = gen_bits(fmt_index(PIXMAN_a8), 1, 1);
+      s.bits.fill = coin(60) ? FILL_RUNS : pickw({4, 4, 3, 3, 1, 1, 1, 6});
+      s.bits.w = sc.w + 4 + (int)R(0, 8);
+      s.bits.h = sc.h + 2 + (int)R(0, 3);
+      return;
+    }
+    if (coin(scaled_family && !is_mask ? 0 : is_mask ? 30 : 25)) {
       s.kind = 1;
       s.color = u32();
       if (coin(35)) s.color |= 0xff000000;
@@ -599,9 +617,11 @@ inline Scene gen_plain_scene(int maxw, int maxh) {
     }
     s.kind = 0;
     int f = is_mask ? fmt_index(pick<pixman_format_code_t>({PIXMAN_a8, PIXMAN_a8, PIXMAN_a8r8g8b8, PIXMAN_a8b8g8r8, PIXMAN_a1, PIXMAN_a4, PIXMAN_x8r8g8b8})) : wpick(SF, 16);
+    if (scaled_family && !is_mask && coin(85)) f = fmt_index(pick<pixman_format_code_t>({PIXMAN_a8r8g8b8, PIXMAN_a8r8g8b8, PIXMAN_x8r8g8b8, PIXMAN_r5g6b5, PIXMAN_a8b8g8r8}));
     s.bits = gen_bits(f, 1, 1);
-    s.bits.fill = pickw({4, 4, 3, 3, 1, 1, 1});
+    s.bits.fill = is_mask ? pickw({4, 4, 3, 3, 1, 1, 1, 6}) : pickw({4, 4, 3, 3, 1, 1, 1, 2});
     int tk = pickw({55, 22, 10, 5, 8});  // none, scale, rot90, affine, 1x1/repeat
+    if (scaled_family && !is_mask) tk = 1;
     s.bits.w = sc.w + (int)R(0, 8);
     s.bits.h = sc.h + (int)R(0, 3);
     if (is_mask && coin(40)) s.component_alpha = has_rgb(s.bits.code());
@@ -627,6 +647,48 @@ inline Scene gen_plain_scene(int maxw, int maxh) {
       s.bits.h = std::max<int>(1, (int)((int64_t)(sc.h + 3) * std::llabs(s.m[4]) / 65536) + (int)R(0, 3));
       if (s.bits.w > 700) s.bits.w = 700;
       if (s.bits.h > 40) s.bits.h = 40;
+      if (coin(40)) {
+        // "cover" requests: every sample (and its bilinear neighbours) inside the source, for scales of either sign and of
+        // magnitude above and below one -- the domain of the COVER_CLIP fast paths and of the cover iterators, which keep
+        // state from one scanline to the next (rows visited backwards and with strides > 1 when the y scale is < -1)
+        if (coin(35)) s.m[4] = -std::llabs(s.m[4]);
+        if (coin(15)) s.m[0] = -std::llabs(s.m[0]);
+        if (coin(30)) s.m[4] = s.m[4] < 0 ? -pick<int64_t>({131072, 163840, 196608, 262144}) : pick<int64_t>({131072, 163840, 196608});
+        auto fit = [&](int64_t a, int first, int n, int &size, int64_t &t) {
+          // sample positions a*(first + k + 1/2), k = 0..n-1 (16.16), shifted so that they span [1, size-1] source pixels
+          int64_t p0 = a * first + a / 2, p1 = a * (first + n - 1) + a / 2;
+          int64_t lo = std::min(p0, p1), hi = std::max(p0, p1);
+          int64_t margin = 65536 + R(0, 32768);
+          t = margin - lo;
+          size = (int)((hi - lo + 2 * margin + 65535) / 65536) + (int)R(0, 2);
+        };
+        int64_t tx, ty;
+        fit(s.m[0], 4, sc.w, s.bits.w, tx);
+        fit(s.m[4], 2, sc.h, s.bits.h, ty);
+        s.m[2] = tx;
+        s.m[5] = ty;
+        if (s.bits.w > 900 || s.bits.h > 60) {
+          s.bits.w = std::min(s.bits.w, 900);
+          s.bits.h = std::min(s.bits.h, 60);
+        }
+        pinned = true;  // the request's source origin is pinned to (4, 2) by the caller
+      } else if (coin(8)) {
+        // very wide sources sampled with a large step from far left of the image: the fixed-point bounds arithmetic of
+        // the scaled fast paths (pad/none scanline bounds) works with sums beyond 2^31 units here, while every sample
+        // position stays inside the +-32767 pixel range the library accepts
+        s.bits.w = pick<int>({20000, 24000, 30000, 32000});
+        s.bits.h = (int)R(1, 2);
+        // the request spans 14000-30000 source pixels and starts left of the image, so that the image's left edge (and
+        // for the shorter spans its right edge too) falls inside the request
+        int64_t span = R(14000, 30000);
+        s.m[0] = std::min<int64_t>(2000 * 65536, std::max<int64_t>(65536, span * 65536 / (sc.w + 4)));
+        s.m[4] = 65536;
+        int64_t start = -R(span / 4, 3 * span / 4);  // first sample, in source pixels
+        s.m[2] = (start - 4 * (s.m[0] >> 16)) * 65536 + R(0, 65535);  // (the caller adds the request's source origin of up to 4)
+        s.m[5] = R(0, 65535);
+        s.filter = pickw({5, 5});
+        s.repeat = pickw({5, 0, 5, 0});  // NONE or PAD
+      }
     } else if (tk == 2) {
       s.has_transform = 1;
       s.bits.w = std::max(sc.w, sc.h) + (int)R(2, 8);
@@ -646,14 +708,14 @@ inline Scene gen_plain_scene(int maxw, int maxh) {
       s.repeat = (int)R(1, 3);
   };
   gsrc(sc.src, false);
-  sc.sx = (int)R(0, 4);
-  sc.sy = (int)R(0, 2);
+  sc.sx = pinned ? 4 : (int)R(0, 4);
+  sc.sy = pinned ? 2 : (int)R(0, 2);
   if (coin(45)) {
     sc.has_mask = 1;
     if (coin(8) && sc.src.kind == 0 && !sc.src.has_transform) sc.mask_is_src = 1;
     else gsrc(sc.mask, true);
-    sc.mx = (int)R(0, 4);
-    sc.my = (int)R(0, 2);
+    sc.mx = pinned && !sc.mask_is_src ? 4 : (int)R(0, 4);
+    sc.my = pinned && !sc.mask_is_src ? 2 : (int)R(0, 2);
   }
   return sc;
 }
